@@ -279,6 +279,12 @@ class CallGraph:
             if (dotted(e.func) or "").split(".")[-1] == "partial" and e.args:
                 return self.callables_of(f, e.args[0], depth + 1)
             return []
+        if isinstance(e, ast.Attribute) and isinstance(e.value, ast.Name) and e.value.id in ("self", "cls") and f.cls is not None \
+                and f.params and f.params[0] == e.value.id:
+            # a bound method taken as a value: the method of the class or of any subclass
+            got = self._method_targets([f.cls.qualname], e.attr, include_overrides=True)
+            if got:
+                return got
         if isinstance(e, (ast.Name, ast.Attribute)):
             if isinstance(e, ast.Name) and scope is not None:
                 flow = flow_of(f.node)
